@@ -54,7 +54,9 @@ Definition agrees (c : case) : bool :=
   let '(ms, l) := c in list_eqb sobs_eqb (run_seq (init_stores ms) (map fst l)) (map sobs_of (map snd l)).
 Definition holds (c : case) : bool :=
   let '(ms, l) := c in
-  spec_seq_b (init_stores ms) (map fst l) (map sobs_of (map snd l)) && forallb wire_of (map snd l).
+  spec_seq_b (init_stores ms) (map fst l) (map sobs_of (map snd l))
+  && served_seq_b (init_stores ms) (map fst l) (map sobs_of (map snd l))   (* round 7: the SERVED metadata *)
+  && forallb wire_of (map snd l).
 (* finding class 1 (fixed by 796203d6; a violation again if it comes back): an observed answer of
    the discovery service is the one of the inverted verify_return and not the one of the fixed code *)
 Fixpoint cls_from (st : stores) (l : list (sstep * seen)) : nat :=
@@ -74,7 +76,7 @@ Fixpoint explain_from (i : nat) (st : stores) (l : list (sstep * seen)) : list (
   match l with
   | [] => []
   | (SOp k o, s) :: r =>
-      (i, OOut (run_op (st k) o), s, match s with SawOut out w => spec_b (st k) o out && w | _ => false end)
+      (i, OOut (run_op (st k) o), s, match s with SawOut out w => spec_b (st k) o out && spec_served_b (st k) o out && w | _ => false end)
       :: explain_from (S i) st r
   | (SReload k m, s) :: r =>
       (i, OReloaded true, s, true) :: explain_from (S i) (match s with SawReload true => upd k m st | _ => st end) r
